@@ -218,6 +218,21 @@ func templateReplay(e *Engine, o *Obl, repo, dir string) (bool, string, bool) {
 		}
 		body = append(body, l)
 	}
+	src := strings.Join(body, "\n")
+	if len(gets) == 0 {
+		// scenario template: a fixed adversarial scenario that checks the property on the real code
+		out2, err := runOverlayTest(repo, vc.fn.Pkg.Pkg.Path(), e.modPath, src, dir, "TestGvcReplay")
+		tr.WriteString("scenario replay test:\n" + src + "\nreplay output:\n" + out2 + "\n")
+		if err != nil && !strings.Contains(out2, "GVC-") {
+			tr.WriteString("replay: test run failed: " + err.Error() + "\n")
+		}
+		if strings.Contains(out2, "GVC-VIOLATION") || (o.Kind == "nopanic" && strings.Contains(out2, "GVC-PANIC")) {
+			tr.WriteString("replay: REPRODUCED (the scenario violates the property on the real code)\n")
+			return true, tr.String(), true
+		}
+		tr.WriteString("replay: the scenario does not violate the property on the real code\n")
+		return false, tr.String(), true
+	}
 	var terms []string
 	for _, g := range gets {
 		terms = append(terms, g.term)
@@ -243,7 +258,6 @@ func templateReplay(e *Engine, o *Obl, repo, dir string) (bool, string, bool) {
 		return false, tr.String(), true
 	}
 	vals := parseGetValue(out, len(gets))
-	src := strings.Join(body, "\n")
 	for i, g := range gets {
 		v := "0"
 		if i < len(vals) {
